@@ -460,6 +460,10 @@ def minimize_lbfgsb(
     # upgrade the gradient and the past sequence of gradients accordingly
     if update_fun_def is not None:
         f0, f0_old, grad, G = update_fun_def(x, f0, copy.copy(f0), grad, X, G)
+        if len(X) > 1:
+            # the restored gradients may have been rewritten: as in the main loop,
+            # the updated G must satisfy the strong wolfe condition
+            X, G = make_X_and_G_respect_strong_wolfe(X, G, eps_SY, logger=logger)
 
     if len(X) > 0:
         # only happens if checkpoint is provided (L-BFGS-B restart)
@@ -470,7 +474,9 @@ def minimize_lbfgsb(
             G,
             maxcor,
             mats,
-            is_force_update=False,
+            # as in the main loop: the matrices must be built from the (possibly
+            # rewritten) history even if the newest pair is rejected
+            is_force_update=update_fun_def is not None and len(X) > 1,
             eps=eps_SY,
             is_check_factorization=is_check_factorization,
         )
